@@ -300,7 +300,8 @@ def wire_family(tier):
             if lines is None:
                 lines = open(v["shard"]).read().splitlines()
             e = json.loads(lines[x["line"] - 1])
-            cls = "%s:%s" % (e.get("how", e["kind"]), e.get("tk", "-"))
+            msg = {"corrupt": "setcluster", "corrupt_repl": "setrepl"}.get(e["kind"], e["kind"])
+            cls = "%s:%s:%s" % (msg, e.get("how", e["kind"]), e.get("tk", "-"))
             if x["mon"].startswith("C17.roundtrip"):
                 # sub-class: a local node without slots?
                 empty = any(not n["slots"] for n in e["orig"].get("local", [])) if isinstance(e.get("orig"), dict) else False
